@@ -80,7 +80,17 @@ def stripe_pieces(ctx):
                    ('R11', r'\bs\.end\b', 's_end'),
                    ('R10', r'return\s+false\s*;', 'return (ClaimResult){0, outBegin, outEnd};', 1),
                    ('R10', r'return\s+true\s*;', 'return (ClaimResult){1, outBegin, outEnd};', 1)])
+    # head of stripeClaim: which chunk size the claim uses and by how much the cursor advances
+    sl = X.slice_between(sc, r'const\s+IntegerT\s+chunkSize\s*=', r'if\s*\(prev >= s\.end\)')
+    ctx.emit('stripe_claim_head.slice.inc', sl, must_fire=['R2', 'R7', 'R11'],
+             subs=[('R5', r'\bconst\s+', '', 'opt'),
+                   ('R11', r'state\.chunkSize', 'state_chunkSize'),
+                   ('R7', r's\.next\.fetch_add\(([^;]*?),\s*std::memory_order_(\w+)\)', r'(g_step = (\1), prev_in)', 1)])
     ini = r.function(PS, r'inline\s+void\s+initStripeState\s*\([^)]*\)')
+    # head of initStripeState: the configuration fields the claims read later
+    sl = X.slice_between(ini, r'state\.numWorkers\s*=', r'const\s+bool\s+haveL3')
+    ctx.emit('init_head.slice.inc', sl, must_fire=['R11'], typemap={'uint32_t': 'uint32_t'},
+             subs=[('R11', r'state\.(\w+)', r'state_\1')])
     sl = X.slice_between(ini, r'Wide\s+totalRange\s*=', r'state\.activeStripes\.store\(activeCount, std::memory_order_release\);')
     ctx.emit('init_stripes.slice.inc', sl, must_fire=['R2', 'R7', 'R8', 'LC'],
              subs=[('R8', r'auto&\s+s\s*=\s*state\.stripes\[i\];', '', 1),
@@ -89,7 +99,7 @@ def stripe_pieces(ctx):
                    ('R7', r'\bs\.retired\.store\(false, std::memory_order_relaxed\);', 'stripes_retired[i] = 0;', 1),
                    ('R7', r'\bs\.retired\.store\(true, std::memory_order_relaxed\);', 'stripes_retired[i] = 1;', 1),
                    ('R7', r'state\.hasWorkMasks\[i >> 6\]\.bits\.fetch_or\([^;]*\);', '/* has-work mask bit set (C12-irrelevant bookkeeping) */', 1),
-                   ('R11', r'state\.granularity', 'state_granularity', 1),
+                   ('R11', r'state\.(\w+)', r'state_\1'),
                    ('R1', r'(?<![\w.])alignDownStripe\(', 'alignDownStripe_Wide(', 1),
                    ('LC', r'for\s*\(uint32_t i = 0; i < numWorkers; \+\+i\)\s*\{',
                     'for (uint32_t i = 0; i < numWorkers; ++i) '
@@ -119,6 +129,8 @@ def stripe_units(ctx, insts, prop='C12'):
         units += [
             Unit('alignDownStripe', 'intwp', S, 'alignDownStripe', expect=[r'postcondition\.2'], **common),
             Unit('alignDownStripe<Wide>', 'intwp', S, 'alignDownStripe_Wide', expect=[r'postcondition\.2'], **common),
+            Unit('stripeClaim.head', 'intwp', S, 'stripe_claim_head', expect=[r'postcondition\.1'], **common),
+            Unit('initStripeState.head', 'intwp', S, 'init_head', expect=[r'postcondition\.1'], **common),
             Unit('initStripeState.partition', 'intwp', S, 'init_stripes', expect=[r'postcondition\.6', r'loop_invariant_step', r'decreases', r'bounds'],
                  replay=dict(prog='replay/c12_replay.cpp', args=lambda ce, u: ['run', 'T=' + u.inst, 'adaptive=1', 'start=%s' % ce['start'], 'end=%s' % ce['end'], 'pool=%d' % max(1, min(int(ce['numWorkers']) - 1, 48)), 'maxThreads=%s' % ce['numWorkers'], 'granularity=%s' % ce['state_granularity']]), **common),
         ]
